@@ -461,6 +461,8 @@ class OrderAnalyzer(Analyzer):
         if isinstance(s, ast.Return):
             if s.value is None or isinstance(s.value, ast.Constant):
                 return self._expr_kind(s.value, st, depth) if s.value is not None else ('benign', '')
+            if not ({n.id for n in ast.walk(s.value) if isinstance(n, ast.Name)} & st.all_defined()):
+                return self._expr_kind(s.value, st, depth)      # the value does not depend on which element was reached (existence test)
             return ('sensitive', f'`{short(s, 60)}` exposes the first element reached')
         if isinstance(s, ast.Expr):
             return self._expr_kind(s.value, st, depth)
@@ -623,6 +625,14 @@ class _LoopState:
         for n in ast.walk(top):
             if isinstance(n, ast.Name) and isinstance(n.ctx, ast.Store):
                 self._defined.add(n.id)
+
+    def all_defined(self) -> T.Set[str]:
+        out = set(self._defined)
+        o = self.outer
+        while o is not None:
+            out |= o._defined
+            o = o.outer
+        return out
 
     def read_outside(self, name: str) -> bool:
         return any(id(n) not in self._inside for n in self.fc.loads.get(name, []))
